@@ -3,13 +3,19 @@ block_roundtrip / frame_roundtrip_compressed in Lemmas/BlockRT.lean) to the REAL
 
 The match finder is an oracle for the model: this file plays that oracle.  It generates random inputs x together with random VALID
 parses (tilings of x by raw / RLE / compressed blocks; a compressed block = literal runs + matches against anything earlier in x,
-overlapping matches and repeated offsets included), and the entropy decisions (raw / RLE / Huffman literals, predefined / RLE tables).
+overlapping matches and repeated offsets included), and the entropy decisions (raw / RLE / Huffman literals; per sequence table LL / OF /
+ML: predefined | RLE | FSE-described with normalised counts made here from the code histogram of the block (`normalise`) | repeat of the
+table of the previous block with sequences, whatever that one was: FSE-described, RLE, predefined or itself a repeat, with raw / RLE
+blocks and compressed blocks without sequences in between).
 Model side (`zvdriver blockenc`, lean/Driver/BlockEnc.lean): op `cframe <windowLog> <checksum> <blocks spec> <hex x>` -> the frame
-bytes of `serializeFrame2`, plus the decoder model on them (rt=ok).
+bytes of `serializeFrame2`, plus the decoder model on them (rt=ok), plus the spreading side conditions of the round-trip theorems on
+every FSE-described table (`fse=<n> spreadOK=true spreadEncEqDec=true`).
 Comparisons: (1) the decoder model regenerates x from the model's frame (rt=ok); (2) THE MODEL'S frame, handed to the real
-ZSTD_decompressDCtx (harness/zvh_dec.c `dec`) with exactly len(x) bytes of room, regenerates x (size and XXH64 equal to `xxh x`).
+ZSTD_decompressDCtx (harness/zvh_dec.c `dec`) with exactly len(x) bytes of room, regenerates x (size and XXH64 equal to `xxh x`);
+(3) spreadOK / spreadEncEqDec are true.
 
-Blocks spec (see lean/Driver/BlockEnc.lean): blocks separated by `;`:  r<n> | e<n> | c<litmode>:<LL OF ML modes>:<ll:ml:off,...>:<tail>.
+Blocks spec (see lean/Driver/BlockEnc.lean): blocks separated by `;`:  r<n> | e<n> | c<litmode>:<LL OF ML modes>:<ll:ml:off,...>:<tail>,
+modes = three letters out of b r p, or three descriptors `b` | `r` | `p` | `f<tableLog>,<c0>,<c1>,...` separated by `/`.
 
 Validity of a parse, beyond ml >= 3 and 1 <= offset <= position: the body of a compressed block must not exceed the decoder's block
 size limit min(windowSize, 128 KiB).  Since the frames carry the content size and 2^windowLog >= len(x), ZSTD_writeFrameHeader picks the
@@ -45,18 +51,182 @@ def fl_size(n):
     return 1 + (n > 31) + (n > 4095)
 
 
-def body_bound(nlits, litmode, seqs):
-    """upper bound of the size of the compressed block body the model writes for this parse"""
+def body_bound(nlits, litmode, seqs, tabs=None):
+    """upper bound of the size of the compressed block body the model writes for this parse; tabs = the three RESOLVED tables
+    (`("b",)` | `("r", sym)` | `("f", log, norm)`) together with the three descriptors, None = predefined / RLE tables"""
     lit = fl_size(nlits) + (1 if litmode == "e" else nlits)        # `h` is only kept by the driver when smaller than raw
     n = len(seqs)
     hdr = 1 if n < 128 else (2 if n < 0x7F00 else 3)
     if n == 0:
         return lit + hdr
+    state, descr = 6 + 5 + 6, 3                                     # FSE state bits: at most tableLog per table (and the final flush)
+    if tabs is not None:
+        resolved, descs = tabs
+        state = sum(dict(b=dflt, r=0).get(r[0], r[1] if r[0] == "f" else 0) for r, dflt in zip(resolved, (6, 5, 6)))
+        descr = 0
+        for r, d in zip(resolved, descs):
+            if d == "r":
+                descr += 1
+            elif d.startswith("f"):                                 # every count takes at most log + 1 bits, the zero runs less than that
+                descr += (len(r[2]) * (r[1] + 1) + 4 + 7) // 8 + 2
     bits = 1                                                        # end mark
     for ll, ml, off in seqs:
         bits += LL_BITS[ll_code(ll)] + ML_BITS[ml_code(ml - 3)] + ((off + 3).bit_length() - 1)   # ofCode <= highbit(off + 3)
-        bits += 6 + 5 + 6                                           # FSE state bits: at most tableLog per table (and the final flush)
-    return lit + hdr + 1 + 3 + (bits + 7) // 8
+        bits += state
+    return lit + hdr + 1 + descr + (bits + state + 7) // 8
+
+
+# ---------------------------------------------------------------------------------------------------------- sequence tables
+
+REP_START = (1, 4, 8)
+# (largest symbol, largest accepted table log (LLFSELog / OffFSELog / MLFSELog), number of symbols of the predefined distribution) for LL, OF, ML
+TYPES = ((35, 9, 36), (31, 8, 29), (52, 9, 53))
+
+
+def finalize_off_base(raw, rep, ll0):
+    """ZSTD_finalizeOffBase (lean: Rep.finalizeOffBase)"""
+    if not ll0 and raw == rep[0]:
+        return 1
+    if raw == rep[1]:
+        return 2 - ll0
+    if raw == rep[2]:
+        return 3 - ll0
+    if ll0 and raw == rep[0] - 1:
+        return 3
+    return raw + 3
+
+
+def update_rep(rep, ob, ll0):
+    """ZSTD_updateRep (lean: Rep.updateRep)"""
+    if ob > 3:
+        return (ob - 3, rep[0], rep[1])
+    rc = ob - 1 + ll0
+    if rc == 0:
+        return rep
+    cur = rep[0] - 1 if rc == 3 else rep[rc]
+    return (cur, rep[0], rep[1] if rc >= 2 else rep[2])
+
+
+def block_codes(seqs, rep):
+    """-> ([(llCode, ofCode, mlCode)], the repeat-offset history behind the block): ZSTD_seqToCodes on the seqStore of the parse"""
+    codes = []
+    for ll, ml, off in seqs:
+        ll0 = 1 if ll == 0 else 0
+        ob = finalize_off_base(off, rep, ll0)
+        rep = update_rep(rep, ob, ll0)
+        codes.append((ll_code(ll), ob.bit_length() - 1, ml_code(ml - 3)))
+    return codes, rep
+
+
+def supports(resolved, cs, t):
+    """can the (resolved) table encode every code of cs?"""
+    if resolved[0] == "b":
+        return max(cs) < TYPES[t][2]
+    if resolved[0] == "r":
+        return set(cs) == {resolved[1]}
+    norm = resolved[2]
+    return all(c < len(norm) and norm[c] != 0 for c in cs)
+
+
+def normalise(rng, hist, log):
+    """a small correct normaliser: hist = {symbol: count > 0} -> the normalised counts of the symbols 0 .. largest symbol of hist: every
+    symbol of hist gets a non-zero count (-1 = "less than one", weight 1), the weights sum to 2^log, the last count is non-zero"""
+    syms = sorted(hist)
+    n, size = len(syms), 1 << log
+    assert 1 <= n <= size
+    total = sum(hist.values())
+    k = rng.random()
+    if n == 1:
+        vals = [size]
+    elif k < 0.25:                                                   # nothing to do with the histogram (still valid)
+        cuts = sorted(rng.sample(range(1, size), n - 1))
+        vals = [b - a for a, b in zip([0] + cuts, cuts + [size])]
+    else:                                                            # 1 + a proportional share of the rest, the remainder to the most frequent symbol
+        vals = [1 + (size - n) * hist[s_] // total for s_ in syms]
+        vals[max(range(n), key=lambda i: hist[syms[i]])] += size - sum(vals)
+    q = rng.choice((0.0, 0.0, 0.5, 1.0))
+    vals = [-1 if v == 1 and rng.random() < q else v for v in vals]
+    norm = [0] * (syms[-1] + 1)
+    for s_, v in zip(syms, vals):
+        norm[s_] = v
+    assert sum(abs(v) for v in norm) == size and norm[-1] != 0
+    return norm
+
+
+def fse_table(rng, cs, t, hint=()):
+    """an FSE-described table for the codes cs of type t (0 LL, 1 OF, 2 ML): ("f", log, norm).  Sometimes the histogram is widened by
+    the codes of `hint` (the blocks that follow: they can then repeat the table) or by random symbols of the alphabet."""
+    maxsym, maxlog, _ = TYPES[t]
+    hist = {}
+    for c in cs:
+        hist[c] = hist.get(c, 0) + 1
+    if hint and rng.random() < 0.6:
+        for c in hint:
+            if c <= maxsym:
+                hist[c] = hist.get(c, 0) + 1
+    k = rng.random()
+    if k < 0.15:
+        for c in rng.sample(range(maxsym + 1), rng.randint(1, 6)):
+            hist.setdefault(c, 1)
+    elif k < 0.22:                                                   # the whole alphabet
+        for c in range(maxsym + 1):
+            hist.setdefault(c, 1)
+    lo = max(5, (len(hist) - 1).bit_length())
+    log = rng.choice((lo, lo, maxlog, rng.randint(lo, maxlog)))
+    return ("f", log, normalise(rng, hist, log))
+
+
+def choose_tables(rng, codes, prev, hints, wish="aaa"):
+    """the three table decisions of a block with sequences -> (descriptors, resolved tables).  prev = the resolved tables of the previous
+    block with sequences (None: there is none yet, `p` is not available); wish per type: a = any valid choice, b r p f = that one"""
+    descs, resolved = [], []
+    for t in range(3):
+        cs = [c[t] for c in codes]
+        w = wish[t]
+        if w == "a":
+            opts = ["f", "f", "f"]
+            if supports(("b",), cs, t):
+                opts += ["b", "b"]
+            if len(set(cs)) == 1:
+                opts += ["r", "r"]
+            if prev is not None and supports(prev[t], cs, t):
+                opts += ["p"] * 5
+            w = rng.choice(opts)
+        if w == "b":
+            assert supports(("b",), cs, t)
+            descs.append("b"); resolved.append(("b",))
+        elif w == "r":
+            assert len(set(cs)) == 1
+            descs.append("r"); resolved.append(("r", cs[0]))
+        elif w == "p":
+            assert prev is not None and supports(prev[t], cs, t), (t, prev, cs)
+            descs.append("p"); resolved.append(prev[t])
+        else:
+            f = fse_table(rng, cs, t, [c[t] for c in hints])
+            assert supports(f, cs, t)
+            descs.append("f%d,%s" % (f[1], ",".join(map(str, f[2])))); resolved.append(f)
+    return descs, resolved
+
+
+def modes_str(tm):
+    """the table-modes field of the blocks spec"""
+    if isinstance(tm, str):
+        return tm
+    return "".join(tm) if all(len(d) == 1 for d in tm) else "/".join(tm)
+
+
+STATS = {}
+
+
+def note_tables(descs, resolved, gap):
+    """counters for the report: decisions per kind, what the repeats stand for, repeats across blocks without sequences"""
+    for d, r in zip(descs, resolved):
+        k = d[0]
+        STATS[k] = STATS.get(k, 0) + 1
+        if k == "p":
+            STATS["p->" + r[0]] = STATS.get("p->" + r[0], 0) + 1
+            if gap:
+                STATS["p-across-gap"] = STATS.get("p-across-gap", 0) + 1
 
 
 # ---------------------------------------------------------------------------------------------------------- inputs
@@ -186,7 +356,7 @@ def spec_of(blocks):
             toks.append("%s%d" % (b[0], b[1]))
         else:
             _, lm, tm, seqs, tail = b
-            toks.append("c%s:%s:%s:%d" % (lm, tm, ",".join("%d:%d:%d" % q for q in seqs), tail))
+            toks.append("c%s:%s:%s:%d" % (lm, modes_str(tm), ",".join("%d:%d:%d" % q for q in seqs), tail))
     return ";".join(toks) if toks else "-"
 
 
@@ -198,15 +368,47 @@ def choose_modes(rng, x, s, seqs, tail):
         lm = "h"
     else:
         lm = "r"
-    tm = ["b", "b", "b"]
-    if seqs:
-        if len({ll_code(q[0]) for q in seqs}) == 1 and rng.random() < 0.5:
-            tm[0] = "r"
-        if len(seqs) == 1 and rng.random() < 0.5:
-            tm[1] = "r"
-        if len({ml_code(q[1] - 3) for q in seqs}) == 1 and rng.random() < 0.5:
-            tm[2] = "r"
-    return lm, "".join(tm), len(lits)
+    return lm, len(lits)
+
+
+def assign_tables(rng, x, tentative, limit):
+    """second pass over the tentative blocks (`("c", None, wish, seqs, tail)` for a compressed one): literal modes, table decisions along
+    the frame (repeat-offset history and previous tables advance on compressed blocks only), raw fallback for blocks over `limit`"""
+    blocks, pos, rep, prev, gap = [], 0, REP_START, None, 0
+    for i, b in enumerate(tentative):
+        if b[0] != "c":
+            blocks.append(b)
+            pos += b[1]
+            gap += 1
+            continue
+        _, lm, wish, seqs, tail = b
+        lits, end = literals_of(x, pos, seqs, tail)
+        if lm is None:
+            lm, _ = choose_modes(rng, x, pos, seqs, tail)
+        if not seqs:
+            blocks.append(("c", lm, "bbb", seqs, tail) if body_bound(len(lits), lm, seqs) <= limit else ("r", end - pos))
+            pos = end
+            gap += 1
+            continue
+        codes, rep2 = block_codes(seqs, rep)
+        hints = []                                                   # the codes the next blocks will probably use (their history is a guess)
+        for nb in tentative[i + 1:i + 4]:
+            if nb[0] == "c" and nb[3]:
+                hints += block_codes(nb[3], rep2)[0]
+        descs, resolved = choose_tables(rng, codes, prev, hints, wish or "aaa")
+        if body_bound(len(lits), lm, seqs, (resolved, descs)) > limit:
+            if wish is None and supports(("b",), [c[1] for c in codes], 1):      # without table descriptions, then
+                descs, resolved = ["b"] * 3, [("b",)] * 3
+            if body_bound(len(lits), lm, seqs, (resolved, descs)) > limit:
+                assert wish is None, "fixed case over the block size limit"
+                blocks.append(("r", end - pos))
+                pos = end
+                gap += 1
+                continue
+        note_tables(descs, resolved, gap)
+        blocks.append(("c", lm, descs, seqs, tail))
+        pos, rep, prev, gap = end, rep2, resolved, 0
+    return blocks
 
 
 def gen_case(rng):
@@ -216,30 +418,27 @@ def gen_case(rng):
     wl = rng.randint(lo, 17)
     assert (1 << wl) >= n
     ck = rng.randint(0, 1)
-    nb = min(n, rng.choice((1, 1, 2, 2, 3, 4)))
+    nb = min(n, rng.choice((1, 1, 2, 2, 3, 4, 5, 7)))
     cuts = sorted(rng.sample(range(1, n), nb - 1)) if nb > 1 else []
     bounds = [0] + cuts + [n]
     idx = index3(x)
     recent = [1, 4, 8]
-    blocks = []
+    tentative = []
     for s, e in zip(bounds, bounds[1:]):
         const = len(set(x[s:e])) == 1
         r = rng.random()
         if const and r < 0.5:
-            blocks.append(("e", e - s))
+            tentative.append(("e", e - s))
             continue
         if r < 0.12:
-            blocks.append(("r", e - s))
+            tentative.append(("r", e - s))
             continue
         seqs, tail = parse_stretch(rng, x, idx, s, e, recent)
         if not seqs and rng.random() < 0.6:                              # nothing to match: mostly what the compressor does
-            blocks.append(("e", e - s) if const else ("r", e - s))
+            tentative.append(("e", e - s) if const else ("r", e - s))
             continue
-        lm, tm, nlits = choose_modes(rng, x, s, seqs, tail)
-        if body_bound(nlits, lm, seqs) > min(n, 1 << wl, BLOCK_MAX):      # would exceed the decoder's block size limit
-            blocks.append(("r", e - s))
-            continue
-        blocks.append(("c", lm, tm, seqs, tail))
+        tentative.append(("c", None, None, seqs, tail))
+    blocks = assign_tables(rng, x, tentative, min(n, 1 << wl, BLOCK_MAX))  # a block over the decoder's block size limit is emitted raw
     check_parse(x, blocks)
     return "cframe %d %d %s %s" % (wl, ck, spec_of(blocks), frames.hx(x)), x
 
@@ -304,13 +503,85 @@ def fixed_cases():
     add(11, 1, [("r", 100), ("c", "r", "rrr", seqs[:1], 0), ("c", "h", "bbb", seqs[1:], 50)], x)
     x, seqs = expand(b"", [(lit[:120], 20, 5)], lit[:3])
     add(10, 0, [("c", "h", "brb", seqs, 3)], x)
+
+    # ---- FSE-described tables (set_compressed) and repeated tables (set_repeat); the normalised counts come from `normalise`
+    import random
+    frng = random.Random(20240917)
+
+    def add2(wl, ck, tentative, x):
+        blocks = assign_tables(frng, x, tentative, len(x))
+        assert [b[0] for b in blocks] == [b[0] for b in tentative]
+        check_parse(x, blocks)
+        ops.append(("cframe %d %d %s %s" % (wl, ck, spec_of(blocks), frames.hx(x)), x))
+
+    def split(seqs, k):
+        return seqs[:k], seqs[k:]
+
+    # 200 equal sequences (ll 1, ml 3, offset 8) behind 8 raw bytes: cut into compressed blocks
+    a, rest = split(seqs_same, 60)
+    b_, rest = split(rest, 50)
+    c_, d_ = split(rest, 40)
+    # (the offset codes of the first block are 1 then 0, 0, ...: rawOffset 8 is rep[2] at first, rep[0] afterwards; so OF can be RLE from
+    # the second block on only)
+    for w1 in ("fff", "rbr", "bbb", "fbr", "bfr"):
+        # every table of the second block repeats the first block's: FSE-described / RLE / predefined
+        add2(10, 1, [("r", 8), ("c", "r", w1, a, 0), ("c", "r", "ppp", b_ + c_ + d_, 0)], xs)
+        # repeat of a repeat; repeat behind a block that changed one table only
+        add2(10, 0, [("r", 8), ("c", "r", w1, a, 0), ("c", "e", "ppp", b_, 0), ("c", "r", "pfp", c_, 0), ("c", "r", "ppp", d_, 0)], xs)
+    add2(10, 1, [("r", 8), ("c", "r", "rbr", a, 0), ("c", "r", "prp", b_, 0), ("c", "r", "ppp", c_, 0), ("c", "r", "ppp", d_, 0)], xs)
+    # raw / RLE blocks and compressed blocks without sequences between the table and its repeat
+    filler = bytes(range(100, 140)) + b"\x07" * 30 + b"tail-literals"
+    x1, s1 = expand(b"ABCDEFGH", [(b"*", 3, 8)] * 60)
+    x2, s2 = expand(x1 + filler, [(b"*", 3, 8)] * 50)
+    x3, s3 = expand(x2 + b"\x09" * 20, [(b"*", 3, 8)] * 40, b"**")
+    for w1, w2 in (("fff", "ppp"), ("rbr", "ppp"), ("bbb", "ppp"), ("rfb", "ppp"), ("rbr", "prp"), ("fff", "pfp")):
+        add2(11, 1, [("r", 8), ("c", "r", w1, s1, 0), ("r", 40), ("e", 30), ("c", "r", "bbb", [], 13), ("c", "r", w2, s2, 0),
+                     ("e", 20), ("c", "e", "ppp", s3, 2)], x3)
+    # varied sequences: long literal runs / matches, two blocks over the same kind of material, the second repeats or re-describes
+    y, sq = expand(lit[:100], [(lit[100:180], 300, 100), (lit[180:400], 1000, 37), (b"", 5, 100), (lit[:17], 40, 37), (b"q", 3, 1)] * 3, lit[:50])
+    u, v = split(sq, 8)
+    for w1, w2 in (("fff", "fff"), ("fff", "ppp"), ("fbf", "pfp"), ("fff", "bpb")):
+        add2(12, 1, [("r", 100), ("c", "h", w1, u, 0), ("c", "r", w2, v, 50)], y)
+    # one sequence only: single-symbol distributions (one count = 2^tableLog), then repeated
+    x, seqs = expand(b"abcdefgh", [(b"", 20, 8)], b"z" * 400)
+    add2(10, 1, [("r", 8), ("c", "e", "fff", seqs, 400)], x)
+    x, seqs = expand(b"abcdefgh" * 30, [(b"", 20, 8), (b"", 20, 8)], b"z" * 400)
+    add2(10, 0, [("r", 240), ("c", "r", "fff", seqs[:1], 0), ("c", "e", "pfp", seqs[1:], 400)], x)
     return ops
+
+
+def negative_cases():
+    """set_repeat with nothing to repeat (no block with sequences before it in the frame): the model writes the modes byte all the same,
+    the decoder model and the real decoder must both refuse the frame (dctx->fseEntropy == 0: corruption_detected)"""
+    x = b"ab" * 50
+    return [("cframe 10 0 cr:ppp:2:98:2:0 %s" % frames.hx(x), x),
+            ("cframe 10 1 cr:bpb:2:98:2:0 %s" % frames.hx(x), x),
+            ("cframe 10 0 r10;cr:bbb::40;cr:ppp:2:48:2:0 %s" % frames.hx(x), x)]
+
+
+def run_negative(ctx, exe):
+    ops = negative_cases()
+    rc, out, err = zv.run([zv.driver_exe(), "blockenc"], "\n".join(o[0] for o in ops) + "\n", timeout=600)
+    m = out.split("\n")[:-1]
+    bad = 0
+    if rc != 0 or len(m) != len(ops):
+        ctx.violation("zvdriver blockenc did not complete on the negative cases (rc %s): %s" % (rc, err[-300:]), dict(kind="tie", op="", c="", model=str(rc)), no_input=True)
+        return len(ops), 1
+    rc, res, err = frames.run_lines(exe, ["dec %d %s" % (len(x), a.split(" ")[0]) for (ln, x), a in zip(ops, m)], timeout=600)
+    for i, ((ln, x), a) in enumerate(zip(ops, m)):
+        got = res[i] if i < len(res) else "<missing>"
+        if " rt=FAIL:corruption " not in a or got != "err corruption":
+            bad += 1
+            ctx.violation("set_repeat without a previous table: decoder model says %s, real decoder says %s (both must refuse: corruption)" % (" ".join(a.split(" ")[1:2]), got),
+                          dict(kind="tie", op=ln, c=got, model=a[-80:]))
+    return len(ops), bad
 
 
 def run(ctx):
     rng = ctx.rng
     exe = frames.harness()
     n = 300 if ctx.quick() else 1500
+    STATS.clear()
     ops = [gen_case(rng) for _ in range(n)] + fixed_cases()
     lines = [o[0] for o in ops]
     rc, out, err = zv.run([zv.driver_exe(), "blockenc"], "\n".join(lines) + "\n", timeout=1800)
@@ -321,18 +592,25 @@ def run(ctx):
         ctx.violation("zvdriver blockenc did not complete (rc %s, %d / %d lines): %s" % (rc, len(m), len(lines), err[-300:]),
                       dict(kind="tie", op="", c="", model=str(rc)), no_input=True)
         return dict(evaluations=len(lines), mismatches=1)
-    bad = 0
+    bad = nfse = 0
     corr = "ZSTD_decompressDCtx(BlockEnc.serializeFrame2 a blocks x) = x"
     declines, who = [], []
     for (ln, x), a in zip(ops, m):
         parts = a.split(" ")
-        if len(parts) != 2 or parts[1] != "rt=ok":
+        if len(parts) != 5 or parts[1] != "rt=ok":
             bad += 1
             if bad <= 8:
-                ctx.violation("decoder model does not regenerate the input from the block writer model's frame: %s (%s)" % (a[-60:], ln[:80]),
+                ctx.violation("decoder model does not regenerate the input from the block writer model's frame: %s (%s)" % (a[-80:], ln[:80]),
                               dict(kind="tie", correspondence=corr, op=ln, c="", model=a))
-            if len(parts) != 2:
+            if len(parts) != 5:
                 continue
+        nfse += int(parts[2].split("=")[1]) if parts[2].startswith("fse=") else 0
+        if parts[2] != "fse=%d" % sum(tok.count("f") for tok in [t.split(":")[1] for t in ln.split(" ")[3].split(";") if t.startswith("c")]) \
+                or parts[3] != "spreadOK=true" or parts[4] != "spreadEncEqDec=true":
+            bad += 1
+            if bad <= 8:
+                ctx.violation("block writer model: an FSE-described table misses a side condition of the round-trip theorems (or is not counted): %s (%s)"
+                              % (" ".join(parts[2:]), ln[:80]), dict(kind="tie", correspondence=corr, op=ln, c="", model=a[-80:]))
         declines.append("dec %d %s" % (len(x), parts[0]))
         declines.append("xxh %s" % frames.hx(x))
         who.append((ln, x, a))
@@ -348,7 +626,9 @@ def run(ctx):
             if bad <= 8:
                 ctx.violation("real decoder applied to the frame written by the block writer MODEL does not regenerate the input: %s (expected %s) on %s"
                               % (got, want, ln[:80]), dict(kind="tie", correspondence=corr, op=ln, c=got, model=a))
-    return dict(evaluations=len(lines) * 2, mismatches=bad)
+    nneg, negbad = run_negative(ctx, exe)
+    bad += negbad
+    return dict(evaluations=len(lines) * 2 + nneg, mismatches=bad, negative_cases=nneg, frames=len(lines), fse_tables_checked=nfse, table_decisions=dict(sorted(STATS.items())))
 
 
 if __name__ == "__main__":
